@@ -9,6 +9,7 @@ import FsVerif.Model.BufStore
 import FsVerif.Model.PrioReq
 import FsVerif.Model.Node.Source
 import FsVerif.Model.Node.Machine
+import FsVerif.Model.Node.Pack
 import FsVerif.Model.Config
 open FsVerif
 
@@ -37,6 +38,7 @@ inductive M where
   | src (s : SrcState)
   | snk (s : SinkState)
   | mac (s : MacState)
+  | pack (s : PackState)
 
 def showRes : PosStore.Res → String
   | .ok => "ok" | .tok i => s!"tok {i}" | .item x => s!"item {x.id}"
@@ -99,6 +101,11 @@ def parseIntList (s : String) : List Int := (s.splitOn ",").filterMap String.toI
 def parseItems (s : String) : List GotItem :=
   (s.splitOn ",").filterMap fun x =>
     match x.splitOn "@" with
+    | [i, c, p, cont, woke] => match i.toNat?, c.toNat? with
+      | some i, some c => some { id := i, created := c, pallet := p == "1",
+                                 content := (cont.splitOn "+").filterMap String.toNat?,
+                                 woke := (woke.splitOn "+").filterMap String.toNat? }
+      | _, _ => none
     | [i, c] => match i.toNat?, c.toNat? with
       | some i, some c => some { id := i, created := c }
       | _, _ => none
@@ -161,6 +168,13 @@ def stepLine (m : M) (line : String) : M × String :=
     | some i, some w, some su, some b, some ip, some op, some ni, some no =>
       (.mac (MacState.init { nodeIdx := i, wc := w, setup := su, blocking := b != 0, inPol := ip, outPol := op, nin := ni, nout := no }), "new")
     | _, _, _, _, _, _, _, _ => (m, "bad-op")
+  | ["new", "pack", kind, idx, setup, blk, ip, op, nin, nout, target] =>
+    match parseNat idx, parseNat setup, parseNat blk, parsePol ip, parsePol op, parseNat nin, parseNat nout with
+    | some i, some su, some b, some ip, some op, some ni, some no =>
+      (.pack (PackState.init { kind := if kind == "splitter" then .splitter else .combiner, nodeIdx := i, setup := su,
+                               blocking := b != 0, inPol := ip, outPol := op, nin := ni, nout := no,
+                               target := (target.splitOn "+").filterMap String.toNat? }), "new")
+    | _, _, _, _, _, _, _ => (m, "bad-op")
   | ["new", "prq", cap] =>
     match parseNat cap with
     | some c => (.prq (PrioReq.init c), "new")
@@ -199,6 +213,21 @@ def stepLine (m : M) (line : String) : M × String :=
         | some p, some t =>
           let (s', cs) := s.step p t (parseAns rest)
           (.mac s', s!"{showCalls cs} || {s'.stats}")
+        | _, _ => (m, "bad-op")
+      | _ => (m, "bad-op")
+    | .pack s =>
+      match w with
+      | ["final", t] =>
+        match parseNat t with
+        | some t => match s.finalize t with
+          | some s' => (.pack s', s!"final || {s'.stats}")
+          | none => (m, "final ValueError")
+        | none => (m, "bad-op")
+      | "act" :: p :: t :: rest =>
+        match parseNat p, parseNat t with
+        | some p, some t =>
+          let (s', cs) := s.step p t (parseAns rest)
+          (.pack s', s!"{showCalls cs} || {s'.stats}")
         | _, _ => (m, "bad-op")
       | _ => (m, "bad-op")
     | .prq s =>
